@@ -49,7 +49,7 @@ TReset == /\ IsEvent("Reset")
           /\ cpc' = [r \in Reqs |-> "idle"] /\ issuedAfterDead' = {} /\ wroteDead' = FALSE /\ dialHealthy' = FALSE
 \* a ticker wake-up that does not leave (isClosed was false) sends the sender back to the top of its loop
 STickStay(k) == STick(k) /\ spc'[k] = "top"
-TSilent == /\ \/ \E r \in Reqs : Enqueue(r)
+TSilent == /\ \/ \E r \in Reqs : Enqueue(r) \/ ReConnectNoDial(r)      \* (ReConnect without a dial leaves no event: it may precede a Close that is recorded before the caller's EnqHook)
               \/ \E k \in Conns : STop(k) \/ SPollFail(k) \/ SInner(k) \/ SWake(k) \/ STickStay(k)
                                   \/ (SWrite(k) /\ spc'[k] = "top")
                                   \/ (SRequeue(k) /\ spc[k] = "handover")
